@@ -30,7 +30,7 @@ def run_item(base, sid):
         r = subprocess.run(["git", "apply", os.path.join(HERE, base, sid, "patch.diff")], cwd=dst, stdout=subprocess.PIPE, stderr=subprocess.STDOUT, text=True)
         if r.returncode != 0:
             return sid, None, "patch does not apply: " + r.stdout[:200]
-        env = dict(os.environ, VERIF_REPO=dst, VERIF_EVIDENCE_DIR=os.path.join(tmp, "ev"))
+        env = dict(os.environ, VERIF_REPO=dst, VERIF_EVIDENCE_DIR=os.path.join(tmp, "ev"), VERIF_FACTS_KEEP="48")
         res = {}
         # the first check extracts the facts; the others reuse them
         for p in (ONLY or PROPS):
